@@ -439,7 +439,12 @@ def treatOutput (s : St) (job : Job) (status : Status) (newW : List (List Rat)) 
 /-- `initiate()` -/
 def initiate (s : St) : St × Bool :=
   if ¬ (s.cstep < s.tsteps) then (s, false) else
-  let s1 := { s with cworker := (s.workers - s.toinitiate).toNat, toinitiate := s.toinitiate - 1 }
+  -- no more jobs than steps left: close the initiation (repair in /repo: restart with fewer
+  -- remaining steps than workers)
+  let ti : Int :=
+    if s.toinitiate > 0 ∧ ((s.cstep : Int) + ((s.workers : Int) - s.toinitiate) ≥ (s.tsteps : Int)) then 0
+    else s.toinitiate
+  let s1 := { s with cworker := ((s.workers : Int) - ti).toNat, toinitiate := ti - 1 }
   (s1, s1.toinitiate ≥ 0)
 
 /-- `loop()` (the `write_toml` at the end of the run is an effect outside this model) -/
